@@ -332,6 +332,25 @@ Theorem C08_store_operations_reload :
 Proof. exact store_operations_reload. Qed.
 Print Assumptions C08_store_operations_reload.
 
+(* Delete with AutoGC: the cascade of delete() calls under ONE exclusive lock (target, referrers,
+   danglings; a manifest that loses its last predecessor gets a digest reference), assembled from the
+   generated call sequences of Store.Delete / delete, respects the lock discipline for EVERY queue in
+   which no node gets a digest reference after it was deleted - so C08_lock_discipline_sufficient
+   covers threads that run it next to any other operations *)
+Theorem C08_delete_cascade_respects_lock_discipline :
+  (forall k ds, prog_delete_item k ds =
+     [KRegDelete k] ++ flat_map (fun d => [KExists d; KReg (RegDig (plain d))]) ds ++
+     [KSave SLock; KSave SSnap; KSave SWrite; KSave SUnlock; KRemove k]) /\
+  forall items, cascade_wf [] items = true -> check ts0 (prog_delete_auto items) = true.
+Proof. exact (conj delete_item_explicit delete_auto_checked). Qed.
+Print Assumptions C08_delete_cascade_respects_lock_discipline.
+
+Example C08_delete_cascade_example :
+  cascade_wf [] [(2, [3]); (1, [])] = true /\
+  (let s := l_run (map (fun i => (i, ([], []))) ([1; 1; 1] ++ repeat 0 5 ++ repeat 1 12 ++ repeat 0 30)) exa_s0 in
+   l_quiescent s /\ ll_blobs s = [3] /\ ll_live s = [(RDig 3, plain 3)] /\ ll_disk s = [plain 3]).
+Proof. exact delete_auto_example. Qed.
+
 (* the lock placements of the two seeded changes are rejected by the checker, and the second one
    (Exists before RLock) run against a Delete ends with a tag, in memory and in index.json, on
    content whose blob file is gone *)
